@@ -10,6 +10,7 @@
 #include <cmath>
 #include <csetjmp>
 #include <csignal>
+#include <cstring>
 #include <functional>
 #include <vector>
 
@@ -23,6 +24,26 @@ extern "C" void abort() {
   signal(SIGABRT, SIG_DFL);
   raise(SIGABRT);
   _exit(134);
+}
+
+/// SIGSEGV/SIGBUS raised by the code under test (synchronous, delivered to the
+/// faulting thread) inside a trapped region end that region like an abort
+static thread_local volatile int c16_signal = 0;
+static void c16_fault_handler(int sig) {
+  if (c16_jmp) {
+    c16_signal = sig;
+    siglongjmp(*c16_jmp, 2);
+  }
+  signal(sig, SIG_DFL);
+  raise(sig);
+}
+static inline void c16_install_fault_handler() {
+  struct sigaction sa;
+  memset(&sa, 0, sizeof(sa));
+  sa.sa_handler = c16_fault_handler;
+  sa.sa_flags = SA_NODEFER;
+  sigaction(SIGSEGV, &sa, nullptr);
+  sigaction(SIGBUS, &sa, nullptr);
 }
 
 namespace c16 {
